@@ -209,6 +209,14 @@ impl Fingerprint {
     ensures r == (self is Decodable && self->Decodable_0.0 == crc32_iso_hdlc(input@)),
 //@end
 }
+impl Fingerprint {
+    // `impl Verifiable for Fingerprint` (what validate_attribute calls through the trait object): no key involved
+//@item stun_rs :: mod attributes > mod stun > mod fingerprint > impl crate::attributes::Verifiable for Fingerprint > fn verify
+//@tags C10 C09
+//@spec
+    ensures r == (self is Decodable && self->Decodable_0.0 == crc32_iso_hdlc(input@)),
+//@end
+}
 impl EncodeAttributeValue for Fingerprint {
     open spec fn wire(&self, enc: Seq<u8>) -> Seq<u8> { seq![0u8, 0u8, 0u8, 0u8] }   // placeholder until post_encode
     open spec fn encodable(&self, enc: Seq<u8>) -> bool { self is Encodable }
